@@ -51,10 +51,14 @@ TEXT = {
     },
     "C06": {
         "text": "Theorem C06_fixpoint_v4: for every accepted byte string, encode succeeds, decodes to norm4 of the value (pointwise equal options) and re-encodes to the same bytes; the "
-                "decoder's image is proved inside the encoder's domain. DHCPv6: labels re-emit their original bytes (C06_labels) and the value settles after one trip on the encoder's domain "
-                "(C06_v6_partial). The direct fixpoint oracle b->m1->b1->m2->b2 runs on the real API over non-canonical v4 areas and every out-of-range v6 numeric field.",
-        "note": COMMON_NOTE + "DHCPv6 half: the decoder-image-in-domain step is not yet a theorem for all option types; labelled partial.",
-        "technique": "Coq proof (v4 fixpoint for all accepted inputs; v6 on the encoder's domain) + direct fixpoint oracle + differential correspondence",
+                "decoder's image is proved inside the encoder's domain. Theorem C06_fixpoint_v6: for every accepted DHCPv6 byte string (all 32 option types, any nesting) whose decoded "
+                "value re-encodes within the 16-bit length fields, the re-encoding decodes to the canonical form of the value and that form encodes to the same bytes; "
+                "C06_fixpoint_v6_no_embedded_v4 discharges the side condition for every message without an embedded DHCPv4 message (re-encoding never grows, "
+                "C06_reencoding_no_longer_v6). Where the side condition fails the real code breaks the property: C06_v6_refuted_when_reencoding_overflows (an IA_NA with 260 "
+                "embedded DHCPv4 messages of 241 octets, each padded to 300 on re-encoding) - recorded as known finding F12 and replayed on the real code on every run. "
+                "The direct fixpoint oracle b->m1->b1->m2->b2 runs on the real API over non-canonical v4 areas and every out-of-range v6 numeric field.",
+        "note": COMMON_NOTE + "Known finding F12 (known_findings.json): the check prints a KNOWN-FINDING line for that input and exits 0; any other fixpoint failure is a VIOLATION.",
+        "technique": "Coq proof (v4 and v6 fixpoint for all accepted inputs, decoder image inside the encoder's domain, refutation witness for the overflow) + direct fixpoint oracle + differential correspondence",
     },
     "C17": {
         "text": "Per accessor kind, theorems for ALL raw values (any length): the accessor returns a value iff the raw value has the RFC layout for its type, and then exactly "
